@@ -49,7 +49,9 @@ pub fn parse_rsca(path: &Path) -> io::Result<Vec<RuleGroup>> {
         r = RuleGroup::new();
         r.rule.push(line.to_string());
     }
-    rules.push(r);
+    if !r.is_empty() {
+        rules.push(r);
+    }
     Ok(rules)
 }
 
